@@ -1,7 +1,7 @@
 (* Entry.v -- flat-list entry points of the executable models, used by the extracted
    OCaml driver for the correspondence runs (inputs and outputs are flat float lists). *)
 From Coq Require Import ZArith List Bool.
-From PV Require Import Num Model_core.
+From PV Require Import Num Model_core Spec_drex.
 From PV.gen Require Import Gen_core.
 Import ListNotations.
 
@@ -27,6 +27,22 @@ Section Entry.
     match r with
     | [p; nn; lam; M; phi] =>
         match derivs regime phase fabric os fs (aol D) (aol L) (aol Sp) p nn lam M phi with
+        | Err e => Err e
+        | Ok (ads, fds) => Ok (flat_map (arr_to_list 9) ads ++ fds)
+        end
+    | _ => Err OtherError
+    end.
+
+  (* the published model (Spec_drex), same calling convention *)
+  Definition run_spec_derivs (regime phase fabric : Z) (n : nat) (xs : list F) : res (list F) :=
+    let os := chunks 9 n xs in
+    let '(fs, r) := take n (skipn (9 * n) xs) in
+    let '(D, r) := take 9 r in
+    let '(L, r) := take 9 r in
+    let '(Sp, r) := take 9 r in
+    match r with
+    | [p; nn; lam; M; phi] =>
+        match spec_derivs regime phase fabric os fs (aol D) (aol L) p nn lam M phi with
         | Err e => Err e
         | Ok (ads, fds) => Ok (flat_map (arr_to_list 9) ads ++ fds)
         end
